@@ -240,7 +240,7 @@ def build_harness(tag, sanitize=False, extra_cflags=(), static_config=False):
             with open(os.path.join(bdir, "syms_main.txt"), "w") as f:
                 for s2 in WRAPPED + WRAPPED_MAIN + WRAPPED_EXTRA:
                     f.write("%s __wrap_%s\n" % (s2, s2))
-                for s2 in ("load_handler", "handle_open_exec", "handle_close_write", "handle_timeout"):
+                for s2 in ("load_handler", "handle_open_exec", "handle_close_write", "handle_timeout", "load_config", "free_config"):
                     f.write("%s __hook_%s\n" % (s2, s2))
             r = run(["objcopy", "--redefine-syms=syms_main.txt", o], cwd=bdir)
         else:
